@@ -43,6 +43,9 @@ structure OSet where
   conds : List Cond
   controllerOf : List CRef
   remotePhases : List (String × String)   -- status.remotePhases: (name, uid) of delegated phase objects
+  -- annotation `package-operator.run/paused-by-parent: "true"` (written by the ObjectDeployment
+  -- controller only; the ObjectSet controller never reads it)
+  pbp : Bool := false
   deriving DecidableEq, Repr, Inhabited
 
 /-- `addRemoteObjectSetPhase`: replace the reference with the same name or append. -/
@@ -73,6 +76,13 @@ inductive SetEnvOp where
   | status (name : String) (v : String)
   deriving Repr, Inhabited
 
+/-- What the ObjectDeployment-level model (`Pko.Model.Handover`) needs of the ObjectDeployment the
+ObjectSets are revisions of: `spec.paused` and the phases of `spec.template`. -/
+structure ODState where
+  paused : Bool := false
+  template : List PhaseSpec := []
+  deriving DecidableEq, Repr, Inhabited
+
 structure Sys where
   w : World
   sets : String → Option OSet      -- ObjectSets of one namespace (or cluster scope) by name
@@ -89,6 +99,9 @@ structure Sys where
   -- ENVIRONMENT: kinds whose API was re-registered with another scope during the history (newest
   -- first).  Not read by any model function: the drivers build the `Cfg.scope` of each step from it.
   scopeOv : List (String × Scope) := []
+  -- The ObjectDeployment the ObjectSets are revisions of (handover stream, `Pko.Model.Handover`).
+  -- Not read by any function of this file.
+  od : ODState := {}
 
 /-- GHOST: remember the ObjectSets as they are after a PKO write. -/
 def Sys.note (s : Sys) : Sys := { s with trail := s.trail ++ [(s.w.gw, s.sets)] }
